@@ -5,7 +5,9 @@ From Coq Require Import Extraction ExtrOcamlBasic ExtrOcamlString.
 From MambaModel Require Import model.PyExpr model.CoreExpr gen.PrinterTable.
 From MambaModel Require Import model.LexTok gen.LexTables model.Lex.
 From MambaModel Require Import model.Core gen.Names model.Convert model.PyStmt.
+From MambaModel Require Import model.SemDom model.PySem model.PyEval model.MEval.
 Extraction Language OCaml.
 Extraction "model.ml" ptoks as_py py_parse pexp wf generated canon table_ok
   tokenize spell synthetic
-  gen plines module_layout_ok.
+  gen plines module_layout_ok
+  run_py run_mamba run_mamba_dev.
